@@ -23,6 +23,8 @@ def seq_allocators(P):
 
 
 def run(chk, w):
+    from . import c01 as _c01
+    _c01.prepare(w)
     P = w.P
     E = w.lock_engine()
     chk.explanation = ("Structural necessary conditions for consecutive per-node numbering: (SPAN) from the call that allocates the number to the call "
